@@ -106,10 +106,24 @@ def lake_build(targets, timeout=3600):
     return p.returncode == 0, out
 
 
+def prop_files(prop):
+    """Props/<prop>.lean and its parts Props/<prop><Part>.lean (e.g. C17Keys, C17Time, C17Addr)."""
+    d = os.path.join(LEAN, 'Hub', 'Props')
+    out = []
+    for f in sorted(os.listdir(d)):
+        if re.match(r'^%s([A-Z][A-Za-z]*)?\.lean$' % re.escape(prop), f):
+            out.append(os.path.join(d, f))
+    return out
+
+
 def theorem_names(prop):
-    path = os.path.join(LEAN, 'Hub', 'Props', prop + '.lean')
-    if not os.path.exists(path):
-        return []
+    names = []
+    for path in prop_files(prop):
+        names += theorem_names_file(path)
+    return names
+
+
+def theorem_names_file(path):
     src = open(path).read()
     src_nc = re.sub(r'/-.*?-/', '', src, flags=re.S)
     src_nc = re.sub(r'--.*', '', src_nc)
